@@ -16,6 +16,7 @@ import (
 	"github.com/logrange/logrange/pkg/model"
 	"github.com/logrange/logrange/pkg/partition"
 	"github.com/logrange/range/pkg/records/chunk"
+	"github.com/logrange/range/pkg/records/chunk/chunkfs"
 	"github.com/logrange/range/pkg/records/journal"
 	. "verifharness/common"
 )
@@ -23,7 +24,11 @@ import (
 // ---------------------------------------------------------------- end-to-end stream
 
 type E2EOp struct {
-	K string `json:"k"` // batch | batchserve | serve | sync | drop | restart | describe | read | cread | selopen | selagain
+	K string `json:"k"` // batch | batchserve | serve | sync | drop | restart | describe | read | cread | selopen | selagain | truncate | pread | pcont
+	// truncate: TRUNCATE c02=e2e MAXSIZE m with m chosen so that the N oldest chunks go (never the last one). pread: the
+	// range query is read for N events only and the position it was left at is saved under Cur; pcont: a NEW cursor
+	// continues it from the saved position to the end.
+	N int `json:"n,omitempty"`
 	// restart: clean shutdown and start (cindex.dat and the .tidx files are written and loaded). drop with Keep: only
 	// cindex.dat is lost, the .tidx index files stay behind (the state a crash leaves: cindex.dat exists between a clean
 	// shutdown and the next start only); the start must discard them. describe: Service.GetParitionInfo.
@@ -71,6 +76,9 @@ func genQueries(r *Rng, all []int64, n int, stream string) []E2EOp {
 	srt := append([]int64{}, all...)
 	sort.Slice(srt, func(a, b int) bool { return srt[a] < srt[b] })
 	pick := func() int64 {
+		if r.Chance(1, 25) { // the ends of the timestamp type and the values around 0, whatever is stored
+			return []int64{-9223372036854775808, -9223372036854775807, -1, 0, 1, 9223372036854775806, 9223372036854775807}[r.Intn(7)]
+		}
 		x := r.Intn(100)
 		var v int64
 		switch {
@@ -154,6 +162,10 @@ func genE2E(r *Rng, i int) *E2ECase {
 		}
 	case "dropwrite":
 		kind = "mono"
+	case "mono":
+		if r.Chance(1, 3) { // nanoseconds since 1970 of a date in 2019..2021
+			cur = 1546300800000000000 + int64(r.Intn(94608000))*1000000000 + int64(r.Intn(1000000000))
+		}
 	}
 	total := r.PickInt(300, 520, 760, 1100, 1500)
 	var all []int64
@@ -354,6 +366,12 @@ func genE2ELifecycle(r *Rng, free bool) *E2ECase {
 			ec.Ops = append(ec.Ops, genQueries(r, all, 2, ec.Stream)...)
 		case x < 68:
 			ec.Ops = append(ec.Ops, E2EOp{K: "describe"}, E2EOp{K: "serve"}, E2EOp{K: "selagain"})
+		case x >= 80 && x < 88 && !free && ec.ChunkRecs > 0 && len(all) > 2*ec.ChunkRecs:
+			// a query left at a saved position; the oldest chunk is TRUNCATEd away (a rebuild of it may be queued: the
+			// rebuilder finds its chunk gone); the query is continued
+			ec.Ops = append(ec.Ops, E2EOp{K: "pread", Cur: 1, N: r.PickInt(1, 100, ec.ChunkRecs), O1: i64p(all[0]), O2: i64p(cur)},
+				E2EOp{K: "truncate", N: 1}, E2EOp{K: "serve"}, E2EOp{K: "pcont", Cur: 1})
+			ec.Ops = append(ec.Ops, genQueries(r, all, 1, ec.Stream)...)
 		case x < 80 && !free:
 			// the index files are lost and the next thing is a WRITE: the info it creates is marked partial (reported with an
 			// unlimited time range); a clean restart inside that window must save the mark and arm the rebuild again
@@ -418,6 +436,16 @@ func genE2ECursor(r *Rng) *E2ECase {
 		case x < 78:
 			ec.Ops = append(ec.Ops, genQueries(r, all, 1, ec.Stream)...)
 		}
+	}
+	if ec.ChunkRecs > 0 && len(all) > 2*ec.ChunkRecs {
+		// a query left at a saved position, TRUNCATE of the oldest chunk(s), the query continued by a new cursor; the kept
+		// selector and the cached cursors go on too
+		lo := all[0]
+		ec.Ops = append(ec.Ops, E2EOp{K: "pread", Cur: 1, N: r.PickInt(1, 50, 120, ec.ChunkRecs-1, ec.ChunkRecs, ec.ChunkRecs+7), O1: i64p(lo), O2: i64p(cur + 10)},
+			E2EOp{K: "pread", Cur: 2, N: r.PickInt(1, 30, 2*ec.ChunkRecs+3), O1: i64p(all[len(all)/3]), O2: i64p(cur)},
+			E2EOp{K: "truncate", N: r.PickInt(1, 1, 2)}, E2EOp{K: "pcont", Cur: 1}, E2EOp{K: "pcont", Cur: 2})
+		batch(r.PickInt(1, 10, 250))
+		ec.Ops = append(ec.Ops, E2EOp{K: "pcont", Cur: 1})
 	}
 	ec.Ops = append(ec.Ops, E2EOp{K: "selagain"}, E2EOp{K: "cread", Cur: 1}, E2EOp{K: "cread", Cur: 2}, E2EOp{K: "read", O1: i64p(a1), O2: i64p(b1)})
 	ec.Ops = append(ec.Ops, genQueries(r, all, r.Range(3, 6), ec.Stream)...)
@@ -568,6 +596,74 @@ func corpus() []Replay {
 		{K: "restart"}, {K: "read", O1: i64p(100), O2: i64p(150)}, {K: "batch", Ts: rep(300, 10)},
 		{K: "read", O1: i64p(100), O2: i64p(150)}, {K: "read", O1: i64p(200), O2: i64p(300)}, {K: "sync"}, {K: "read", O1: i64p(50), O2: i64p(1000)},
 		{K: "serve"}, {K: "read", O1: i64p(100), O2: i64p(150)}, {K: "read", O1: i64p(150), O2: i64p(250)}}}})
+	// (p) ONE chunk whose index tree is two levels high: 46 batches of 250 events ts 100000+pos (46 index intervals; a leaf
+	// block holds 40), further intervals are added to the second leaf; lower bounds beyond the second leaf's first interval
+	{
+		ts := make([]int64, 11500)
+		for i := range ts {
+			ts[i] = 100000 + int64(i)
+		}
+		var ops []E2EOp
+		for b := 0; b < 46; b++ {
+			ops = append(ops, E2EOp{K: "batch", Ts: ts[250*b : 250*b+250]})
+			if b == 41 || b == 43 {
+				ops = append(ops, E2EOp{K: "read", O1: i64p(ts[10300]), O2: i64p(ts[10400])})
+			}
+		}
+		ops = append(ops, E2EOp{K: "read", O1: i64p(ts[11000])}, E2EOp{K: "read", O1: i64p(ts[10300]), O2: i64p(ts[10400])},
+			E2EOp{K: "read", O2: i64p(ts[10260])}, E2EOp{K: "read", O1: i64p(ts[9990]), O2: i64p(ts[10010])})
+		out = append(out, Replay{Kind: "e2e", E2E: &E2ECase{Stream: "mono", Ops: ops}})
+	}
+	// (q) a query continued from a saved position whose chunk was TRUNCATEd away: 1500 events in chunks of 300, the index
+	// files are lost and a read asks for the rebuild of chunk 1 (held); the range query is read 120 records into chunk 1
+	// and its position saved; TRUNCATE removes chunk 1; the rebuilder finds its chunk gone; the query is continued from the
+	// saved position by a new cursor: exactly the in-range events of chunks 2.. (the position denotes the first record of
+	// the next existing chunk); a second position inside an existing chunk; a position in a chunk BEFORE the removed one
+	{
+		ts := make([]int64, 1500)
+		for i := range ts {
+			ts[i] = 1000 + int64(i)
+		}
+		out = append(out, Replay{Kind: "e2e", E2E: &E2ECase{Stream: "cursor", ChunkRecs: 300, Ops: []E2EOp{
+			{K: "batch", Ts: ts[:600]}, {K: "batch", Ts: ts[600:1200]}, {K: "batch", Ts: ts[1200:]}, {K: "drop"},
+			{K: "read", O1: i64p(ts[10]), O2: i64p(ts[10])},
+			{K: "pread", Cur: 1, N: 120, O1: i64p(1000), O2: i64p(5000)}, {K: "pread", Cur: 2, N: 700, O1: i64p(1000), O2: i64p(5000)},
+			{K: "cread", Cur: 1, O1: i64p(1100), O2: i64p(5000)},
+			{K: "truncate", N: 1}, {K: "serve"}, {K: "pcont", Cur: 1}, {K: "pcont", Cur: 2}, {K: "cread", Cur: 1},
+			{K: "read", O1: i64p(1000), O2: i64p(5000)},
+			{K: "truncate", N: 2}, {K: "pcont", Cur: 1}, {K: "pcont", Cur: 2}, {K: "read", O1: i64p(ts[900]), O2: i64p(ts[1000])}}}})
+	}
+	// (r) repeated and idempotent operations, and a chunk list that changes while its LENGTH stays (one chunk removed, one
+	// added between two reads of a kept selector, whose cache is keyed by chunk id and refreshed by the list's length)
+	{
+		ts := make([]int64, 1300)
+		for i := range ts {
+			ts[i] = 1577836800000000000 + 1000000000*int64(i/3)
+		}
+		out = append(out, Replay{Kind: "e2e", E2E: &E2ECase{Stream: "lifecycle", ChunkRecs: 200, Ops: []E2EOp{
+			// (no cached cursor here: chunks that TRUNCATE removes while a cached cursor holds them are deleted late, and a
+			// restart in between brings them back - TRUNCATE's business, C09)
+			{K: "batch", Ts: ts[:700]}, {K: "selopen", O1: i64p(ts[150]), O2: i64p(ts[900])},
+			{K: "truncate", N: 1}, {K: "batch", Ts: ts[700:900]}, {K: "selagain"}, {K: "truncate", N: 1}, {K: "truncate", N: 1},
+			{K: "selagain"}, {K: "sync"}, {K: "sync"}, {K: "describe"}, {K: "describe"}, {K: "serve"}, {K: "serve"},
+			{K: "restart"}, {K: "restart"}, {K: "read", O1: i64p(ts[150]), O2: i64p(ts[900])},
+			{K: "drop"}, {K: "drop", Keep: true}, {K: "read", O1: i64p(ts[600]), O2: i64p(ts[600])}, {K: "read", O1: i64p(ts[600]), O2: i64p(ts[600])},
+			{K: "serve"}, {K: "serve"}, {K: "batch", Ts: ts[900:]}, {K: "read", O1: i64p(ts[899]), O2: i64p(ts[901])},
+			{K: "read", O1: i64p(ts[1299]), O2: i64p(ts[0])}, {K: "read", O1: i64p(ts[1299]), O2: i64p(ts[1299])}}}})
+	}
+	// (s) the largest timestamp: an omitted upper bound is MaxInt64 itself (events stamped MaxInt64 are in range), and the
+	// bounds MaxInt64-1 / MaxInt64 written out
+	{
+		const maxI64 = 9223372036854775807
+		out = append(out, Replay{Kind: "e2e", E2E: &E2ECase{Stream: "extreme", Ops: []E2EOp{
+			{K: "batch", Ts: append(rep(maxI64-2, 249), maxI64-1)}, {K: "batch", Ts: append(rep(maxI64-1, 248), maxI64, maxI64)},
+			{K: "read", O1: i64p(maxI64 - 1)}, {K: "read", O1: i64p(maxI64)}, {K: "read", O1: i64p(maxI64), O2: i64p(maxI64)},
+			{K: "read", O1: i64p(maxI64 - 1), O2: i64p(maxI64 - 1)}, {K: "read", O2: i64p(maxI64)}, {K: "read", O2: i64p(maxI64 - 1)}}}})
+	}
+	// (t) (f) with ONE record before the index loss: the write notification that creates the info starts at record 1
+	out = append(out, Replay{Kind: "e2e", E2E: &E2ECase{Stream: "dropwrite", Ops: []E2EOp{
+		{K: "batch", Ts: rep(100, 1)}, {K: "drop"}, {K: "batch", Ts: rep(200, 10)}, {K: "read", O1: i64p(100), O2: i64p(100)},
+		{K: "read", O1: i64p(50), O2: i64p(150)}, {K: "serve"}, {K: "read", O1: i64p(100), O2: i64p(100)}}}})
 	// (n) a RANGE query over two partitions (cursor.newCursor mixes one range iterator per partition)
 	{
 		var a, b []int64
@@ -629,7 +725,19 @@ type e2eRun struct {
 	sel      *partition.VC02Selector
 	selRange [2]int64
 	aux      []int64 // timestamps written to the second partition c02=aux (op aux)
-	curs     map[int]*e2eCursor
+	// TRUNCATE has removed the first `gone` chunks (goneEv events). cids/cnts/all keep their entries, so that chunk
+	// ordinals and the sequence numbers of events stay what they were
+	gone, goneEv int
+	saved        map[int]*e2eSaved
+	curs         map[int]*e2eCursor
+}
+
+// e2eSaved is the position a partly read query was left at (op pread), to be continued by a NEW cursor (op pcont)
+type e2eSaved struct {
+	q       string
+	pos     string
+	o1, o2  *int64
+	lastSeq int // sequence number of the last event the first page delivered (-1: none)
 }
 
 // e2eCursor is a cached cursor of the server that the harness continues: the request for the next page and what
@@ -716,7 +824,7 @@ func (e *e2eRun) writeBatch(tss []int64, serveFirst bool) (segs [][2]int, seen [
 			return nil, nil, nil, err
 		}
 		for i, c := range cks {
-			seen = append(seen, [2]int{i + 1, int(c.Count())})
+			seen = append(seen, [2]int{i + 1 + e.gone, int(c.Count())})
 		}
 		served = e.srv.Partitions.VC02ServeQueued()
 	}
@@ -741,12 +849,13 @@ func (e *e2eRun) writeBatch(tss []int64, serveFirst bool) (segs [][2]int, seen [
 		for _, c := range cks {
 			n += int(c.Count())
 		}
-		return n == want
+		return n == want-e.goneEv
 	})
 	if !ok {
 		return nil, nil, nil, fmt.Errorf("the batch of %d events did not become readable within 30s", len(tss))
 	}
 	for i, c := range cks {
+		i += e.gone
 		if i < len(e.cids) {
 			if e.cids[i] != c.Id() {
 				return nil, nil, nil, fmt.Errorf("chunk list changed unexpectedly")
@@ -773,6 +882,9 @@ func (e *e2eRun) view() (string, string, int, error) {
 	var vs []string
 	maxPts := 0
 	for i, c := range e.cids {
+		if i < e.gone {
+			continue
+		}
 		h := GNone
 		if ri, err := e.srv.TsIndexer.GetRecordsInfo(e.src, c); err == nil {
 			h = GSome(GPair(GZ(ri.MinTs), GZ(ri.MaxTs)))
@@ -805,23 +917,29 @@ type evt struct {
 	ts  int64
 }
 
-func (e *e2eRun) query(q string) ([]evt, error) {
-	res, err := e.srv.Querier.Query(e.ctx, &api.QueryRequest{Query: q, Limit: 9000})
-	if res == nil {
-		return nil, fmt.Errorf("query failed: %v", err)
-	}
-	if len(res.Events) >= 9000 {
-		return nil, fmt.Errorf("page limit reached")
-	}
-	out := make([]evt, 0, len(res.Events))
-	for _, le := range res.Events {
-		s, err := seqOf(le.Message)
-		if err != nil {
-			return nil, fmt.Errorf("unexpected message %q", le.Message)
+func (e *e2eRun) query(q string) ([]evt, error) { return e.queryFrom(q, "") }
+
+// queryFrom reads the query to the end, starting at the position pos ("" = head), in pages of 9000 events (every page
+// after the first is a new cursor created at the position the page before was left at)
+func (e *e2eRun) queryFrom(q, pos string) ([]evt, error) {
+	var out []evt
+	for {
+		res, err := e.srv.Querier.Query(e.ctx, &api.QueryRequest{Query: q, Pos: pos, Limit: 9000})
+		if res == nil {
+			return nil, fmt.Errorf("query failed: %v", err)
 		}
-		out = append(out, evt{s, le.Timestamp})
+		for _, le := range res.Events {
+			s, err := seqOf(le.Message)
+			if err != nil {
+				return nil, fmt.Errorf("unexpected message %q", le.Message)
+			}
+			out = append(out, evt{s, le.Timestamp})
+		}
+		if len(res.Events) < 9000 {
+			return out, nil
+		}
+		pos = res.NextQueryRequest.Pos
 	}
-	return out, nil
 }
 
 func seenOf(seen [][2]int, o, dflt int) int {
@@ -1197,10 +1315,11 @@ func runE2E(rp Replay) (*Case, error) {
 			}
 			nreads++
 			// sanity of the full scan (C01's business, but everything below relies on it)
-			if len(full) != e.total {
-				fail("full-scan-incomplete", fmt.Sprintf("full scan returned %d of %d events", len(full), e.total))
+			if len(full) != e.total-e.goneEv {
+				fail("full-scan-incomplete", fmt.Sprintf("full scan returned %d of %d events", len(full), e.total-e.goneEv))
 			}
 			for k, ev := range full {
+				k += e.goneEv
 				if k < e.total && (ev.seq != k || ev.ts != e.all[k]) {
 					fail("full-scan-content", fmt.Sprintf("event %d of the full scan is (seq %d, ts %d), written (seq %d, ts %d)", k, ev.seq, ev.ts, k, e.all[k]))
 					break
@@ -1426,6 +1545,173 @@ func runE2E(rp Replay) (*Case, error) {
 				tags = append(tags, "e2e-free-rebuilder")
 				pendingChunks, pendingDropWrite = map[int]bool{}, false
 			}
+		case "truncate":
+			if e.src == "" {
+				continue
+			}
+			cks, err := e.chunks()
+			if err != nil {
+				return nil, err
+			}
+			n := op.N
+			if n >= len(cks) {
+				n = len(cks) - 1
+			}
+			if n <= 0 {
+				continue
+			}
+			var total, cut int64
+			ids := make([]chunk.Id, len(cks)) // a removed chunk's wrapper must not be asked for its id afterwards
+			for i, c := range cks {
+				ids[i] = c.Id()
+				total += c.Size()
+				if i < n {
+					cut += c.Size()
+				}
+			}
+			if _, err := e.srv.Exec(fmt.Sprintf("TRUNCATE c02=e2e MAXSIZE %d", total-cut)); err != nil {
+				return nil, fmt.Errorf("TRUNCATE: %v", err)
+			}
+			after, err := e.chunks()
+			if err != nil {
+				return nil, err
+			}
+			removed := len(cks) - len(after)
+			if removed < 0 || (len(after) > 0 && after[0].Id() != ids[removed]) {
+				return nil, fmt.Errorf("TRUNCATE did not remove a prefix of the chunk list")
+			}
+			// The journal removes the files of a deleted chunk in a goroutine of its own (after it has got the chunk's
+			// lock); a shutdown before that brings the chunk back at the next start. What TRUNCATE promises there is C09's
+			// business: here the case goes on when the files are gone.
+			if j, err := e.journal(); err == nil {
+				dir := j.Chunks().LocalFolder()
+				for k := 0; k < removed; k++ {
+					fn := chunkfs.SetChunkDataFileExt(chunkfs.MakeChunkFileName(dir, ids[k]))
+					if !WaitFor(30*time.Second, func() bool { _, err := os.Stat(fn); return os.IsNotExist(err) }) {
+						return nil, fmt.Errorf("the file %s of a truncated chunk is still there after 30s", fn)
+					}
+				}
+			}
+			for k := 0; k < removed; k++ {
+				e.goneEv += e.cnts[e.gone+k]
+			}
+			e.gone += removed
+			tags = append(tags, fmt.Sprintf("e2e-truncated:%d", removed))
+			gop = GApp("ETruncate", GNat(removed))
+		case "pread", "pcont":
+			if e.src == "" || op.Cur <= 0 {
+				continue
+			}
+			if e.saved == nil {
+				e.saved = map[int]*e2eSaved{}
+			}
+			full, err := e.query("SELECT FROM " + e2eTags)
+			if err != nil {
+				return nil, err
+			}
+			if op.K == "pread" {
+				if op.O1 == nil || op.O2 == nil || op.N <= 0 {
+					continue
+				}
+				sv := &e2eSaved{o1: op.O1, o2: op.O2, lastSeq: -1, q: fmt.Sprintf(`SELECT FROM %s RANGE ["%d":"%d"]`, e2eTags, *op.O1, *op.O2)}
+				res, err := e.srv.Querier.Query(e.ctx, &api.QueryRequest{Query: sv.q, Limit: op.N})
+				if res == nil {
+					return nil, fmt.Errorf("query %q failed: %v", sv.q, err)
+				}
+				sv.pos = res.NextQueryRequest.Pos
+				// oracle: the page is the first N in-range events
+				k := 0
+				for _, ev := range full {
+					if ev.ts < *op.O1 || ev.ts > *op.O2 || k >= op.N {
+						continue
+					}
+					if sortedAll && (k >= len(res.Events) || msgOf(ev.seq) != res.Events[k].Message) {
+						fail("range-page", fmt.Sprintf("%s LIMIT %d: result %d is not the in-range event seq %d", sv.q, op.N, k, ev.seq))
+					}
+					k++
+				}
+				if sortedAll && k != len(res.Events) {
+					fail("range-page", fmt.Sprintf("%s LIMIT %d returned %d events, the first page has %d", sv.q, op.N, len(res.Events), k))
+				}
+				if len(res.Events) > 0 {
+					sv.lastSeq, _ = seqOf(res.Events[len(res.Events)-1].Message)
+				}
+				e.saved[op.Cur] = sv
+				syncedSinceDrop = true
+				gop = GApp("ECRead", optZ(op.O1), optZ(op.O2))
+				break
+			}
+			sv := e.saved[op.Cur]
+			if sv == nil {
+				continue
+			}
+			// the saved position: <partition>=<chunk id, 16 hex digits><record index, 8 hex digits>
+			kv := strings.Split(sv.pos, "=")
+			if len(kv) != 2 {
+				return nil, fmt.Errorf("unexpected position %q", sv.pos)
+			}
+			jp, err := journal.ParsePos(kv[1])
+			if err != nil {
+				return nil, err
+			}
+			pc := e.ordinal(jp.CId)
+			if pc < 0 {
+				return nil, fmt.Errorf("the position %q names an unknown chunk", sv.pos)
+			}
+			got, err := e.queryFrom(sv.q, sv.pos)
+			if err != nil {
+				return nil, err
+			}
+			syncedSinceDrop = true
+			tags = append(tags, "e2e-continued-from-position")
+			if int(pc) <= e.gone {
+				tags = append(tags, "e2e-position-in-removed-chunk")
+			}
+			// oracle: exactly the in-range events stored after the last delivered one that still exist
+			if sortedAll {
+				var want []evt
+				for _, ev := range full {
+					if ev.ts >= *sv.o1 && ev.ts <= *sv.o2 && ev.seq > sv.lastSeq {
+						want = append(want, ev)
+					}
+				}
+				bad := len(want) != len(got)
+				for k := 0; !bad && k < len(want); k++ {
+					bad = want[k].seq != got[k].seq
+				}
+				if bad {
+					first := -1
+					if len(got) > 0 {
+						first = got[0].seq
+					}
+					wfirst := -1
+					if len(want) > 0 {
+						wfirst = want[0].seq
+					}
+					fail("range-continued-position", fmt.Sprintf("%s continued from the position %s (chunk %d, record %d; %d chunk(s) removed since) returned %d events starting at seq %d; the in-range events after seq %d that still exist are %d, starting at seq %d",
+						sv.q, sv.pos, pc, jp.Idx, e.gone, len(got), first, sv.lastSeq, len(want), wfirst))
+				}
+			}
+			// delivered events as (chunk ordinal, first pos, last pos) runs
+			{
+				starts := make([]int, len(e.cnts)+1)
+				for k, c := range e.cnts {
+					starts[k+1] = starts[k] + c
+				}
+				var runs []string
+				for k := 0; k < len(got); {
+					c := sort.Search(len(e.cnts), func(i int) bool { return starts[i+1] > got[k].seq })
+					p := got[k].seq - starts[c]
+					m := k
+					for m+1 < len(got) && got[m+1].seq == got[m].seq+1 && got[m+1].seq < starts[c+1] {
+						m++
+					}
+					runs = append(runs, GTuple(GZ(int64(c+1)), GZ(int64(p)), GZ(int64(p+m-k))))
+					k = m + 1
+				}
+				gEvents = GList(runs)
+			}
+			gop = GApp("EPosRead", optZ(sv.o1), optZ(sv.o2), GZ(pc), GZ(int64(jp.Idx)))
 		case "aux":
 			// events for a second partition; what a RANGE query over both partitions delivers is judged by the oracle (read2)
 			it := &sliceIt{}
@@ -1473,7 +1759,9 @@ func runE2E(rp Replay) (*Case, error) {
 			}
 			if sortedAll {
 				for k, ts := range e.all {
-					check(k, ts)
+					if k >= e.goneEv {
+						check(k, ts)
+					}
 				}
 				for k, ts := range e.aux {
 					check(1000000+k, ts)
@@ -1512,8 +1800,9 @@ func runE2E(rp Replay) (*Case, error) {
 			// oracle (C02_continued_selector_complete): on a partition in time order, outside the window of the recorded
 			// finding (f), the window the kept selector answers with contains every position of the chunk whose timestamp
 			// is in its range - also when the index was rebuilt, synchronised or reloaded since the window was computed
-			if sortedAll && len(ws) == len(e.cids) {
+			if sortedAll && len(ws) == len(e.cids)-e.gone {
 				for k, w := range ws {
+					k += e.gone
 					for i, ts := range chunkData(k + 1) {
 						if ts < e.selRange[0] || ts > e.selRange[1] {
 							continue
